@@ -212,60 +212,135 @@ def parse_ppl(verdict):
     return out
 
 
-def run_walk(ctx, n=None, variant="plain", scripts=None):
+# ---------------------------------------------------------------- decoder vs the library's own reader
+BIGNEG = -4000000000000000000
+
+
+def reader_ops(script):
+    """reader ops appended to a writer program: what the library's reader returns (definitions, user data,
+    annotations, UTC entries, lengths).  Returns (ops string, ids in the order used)."""
+    ids = [0]
+    for op in script.split(";"):
+        t = op.split()
+        if t and t[0] == "sig" and int(t[1]) < 256 and int(t[1]) not in ids:
+            ids.append(int(t[1]))
+    ids.sort()
+    ops = ["ropen", "srcs", "sigs", "udr"]
+    for i in ids:
+        ops += ["an %d %d" % (i, BIGNEG), "ut %d %d" % (i, BIGNEG), "len %d" % i]
+    return ";" + ";".join(ops + ["rclose"]), ids
+
+
+def _items(text):
+    m = re.search(r"\[(.*?)\]", text)
+    return m.group(1).split() if m else None
+
+
+def compare_with_reader(walk_verdict, reader_out, ids):
+    """walk_verdict: 'OK ... | <dump>' (mode dump); reader_out: the implementation's answers to reader_ops (from 'ropen' on).
+    Returns a list of disagreements between the independent decoder and the library's reader."""
+    if " | " not in walk_verdict:
+        return []
+    d = {}
+    for it in walk_verdict.split(" | ", 1)[1].split(";"):
+        t = it.split()
+        if t[0] in ("srcs", "sigs", "udr"):
+            d[t[0]] = it
+        else:
+            d[(t[0], int(t[1]))] = it
+    rops = reader_out.split(";")
+    if rops[0].split() != ["ropen", "0"]:
+        return ["the library's reader does not open the file: %s" % rops[0]]
+    out = []
+    k = 1
+    for name in ("srcs", "sigs"):
+        if rops[k].split() != d[name].split():
+            out.append("%s: reader '%s' / decoder '%s'" % (name, rops[k][:400], d[name][:400]))
+        k += 1
+    if _items(rops[k]) != _items(d["udr"]):
+        out.append("user data: reader '%s' / decoder '%s'" % (rops[k][:400], d["udr"][:400]))
+    k += 1
+    defined = {key[1] for key in d if isinstance(key, tuple)}
+    for sid in ids:
+        an, ut, ln = rops[k], rops[k + 1], rops[k + 2]
+        k += 3
+        if sid not in defined:
+            continue          # the writer rejected this definition
+        if _items(an) != _items(d[("an", sid)]):
+            out.append("annotations of signal %d: reader '%s' / decoder '%s'" % (sid, an[:400], d[("an", sid)][:400]))
+        fsr = ut.split()[1:2] == ["["]
+        if fsr and re.search(r"\] 0 ", ut) and _items(ut) != _items(d[("ut", sid)]):
+            out.append("UTC entries of signal %d: reader '%s' / decoder '%s'" % (sid, ut[:400], d[("ut", sid)][:400]))
+        lt = ln.split()
+        m = re.search(r"end=(-?\d+) end_with_omitted=(-?\d+)", d[("data", sid)])
+        if len(lt) == 3 and lt[1] == "0" and m and int(lt[2]) not in (int(m.group(1)), int(m.group(2))):
+            out.append("length of signal %d: reader %s / decoder %s" % (sid, ln, d[("data", sid)][:200]))
+    return out
+
+
+def run_walk(ctx, n=None, variant="plain", scripts=None, with_reader=True):
     """Generate programs, run them on the implementation, walk every produced file and check every write log.
-    Assumes vlib.build has been called by the caller (needs the `prog` kind and kinds walk/checklog)."""
+    Assumes vlib.build has been called by the caller (needs the `prog` kind and kinds walk/checklog).
+    Returns the number of violations recorded (known findings excluded)."""
     n = n if n is not None else (120 if ctx.tier == "quick" else 900)
     cases = [(s, {}) for s in (scripts or [])] + [gen_case(ctx.rng, ctx.tier) for _ in range(n)]
     out = os.path.join(ctx.tmp, "walk")
     os.makedirs(out, exist_ok=True)
-    progs, files, logs = [], [], []
+    progs, files, logs, idsl = [], [], [], []
     for i, (s, meta) in enumerate(cases):
         f = os.path.join(out, "p%d.jls" % i)
         l = os.path.join(out, "p%d.log" % i)
         files.append(f)
         logs.append(l)
-        progs.append(s + ";save %s;logdump %s" % (f, l))
+        rops, ids = reader_ops(s) if with_reader else ("", [])
+        idsl.append(ids)
+        progs.append(s + ";save %s;logdump %s" % (f, l) + rops)
     scratch = os.path.join(ctx.tmp, "scratch_walk")
     os.makedirs(scratch, exist_ok=True)
     impl = vlib.run_c(variant, "prog", progs, args=[scratch, "timeout=60"], timeout=3000)
-    vw = walk_files(ctx, files, "report")
+    vw = walk_files(ctx, files, "dump" if with_reader else "report")
     vl = check_logs(ctx, logs)
     dist = {}
     nv = 0
     for i, ((script, meta), a, w, l) in enumerate(zip(cases, impl, vw, vl)):
         for dk in (meta.get("dist") or []):
             dist[dk] = dist.get(dk, 0) + 1
-        ctx.count(script, nontrivial=not meta.get("trivial", False), sample={"script": script[:300], "walk": w[:300], "checklog": l[:120]})
+        wshort = w.split(" | ")[0]
+        ctx.count(script, nontrivial=not meta.get("trivial", False), sample={"script": script[:300], "walk": wshort[:300], "checklog": l[:120]})
+        wr_part, _, rd_part = a.partition(";ropen")
         replay = ("script:\n%s\n\nreplay:\n  echo '<script>;save /tmp/x.jls;logdump /tmp/x.log' | %s/%s/jlsrun prog /tmp\n"
-                  "  echo /tmp/x.jls | %s/jlsmodel walk strict\n  echo /tmp/x.log | %s/jlsmodel checklog\n\nimplementation: %s\nwalk: %s\nchecklog: %s\n"
-                  % (script, vlib.BUILD, variant, vlib.BUILD, vlib.BUILD, a[:600], w, l))
-        bad_ops = [o for o in a.split(";") if o.startswith("FAULT") or (o.split() and o.split()[0] in ("wopen", "wclose") and o.split()[1:2] != ["0"])]
+                  "  echo /tmp/x.jls | %s/jlsmodel walk strict      (or: report, dump)\n  echo /tmp/x.log | %s/jlsmodel checklog\n\n"
+                  "implementation: %s\nwalk: %s\nchecklog: %s\n" % (script, vlib.BUILD, variant, vlib.BUILD, vlib.BUILD, wr_part[-300:], wshort, l))
+        ops = [o.split() for o in wr_part.split(";")]
+        bad_ops = [" ".join(o) for o in ops if o and (o[0].startswith("FAULT") or (o[0] in ("wopen", "wclose") and o[1:2] != ["0"]))]
+        if "FAULT" in a and not bad_ops:
+            bad_ops = [a[a.index("FAULT"):][:40]]
         if bad_ops:
-            nv += 1
-            ctx.violation("walk_case_%d.txt" % nv, replay, "writer program did not run to completion: %s" % bad_ops[0], sig=None)
+            nv += ctx.violation("walk_case_%d.txt" % i, replay, "writer program did not run to completion: %s" % bad_ops[0], sig=None)
             continue
         if not w.startswith("OK"):
-            nv += 1
-            ctx.violation("walk_case_%d.txt" % nv, replay, "format walk of a produced file failed: %s" % w[:160], sig=None)
+            nv += ctx.violation("walk_case_%d.txt" % i, replay, "format walk of a produced file failed: %s" % w[:160], sig=None)
         else:
-            items = parse_ppl(w)
+            items = parse_ppl(wshort)
             if items:
                 sigs = classify_ppl(items)
                 if sigs is None:
-                    nv += 1
-                    ctx.violation("walk_case_%d.txt" % nv, replay, "payload_prev_length mismatch outside the known class: %s" % w[:200], sig=None)
+                    nv += ctx.violation("walk_case_%d.txt" % i, replay, "payload_prev_length mismatch outside the known class: %s" % wshort[:200], sig=None)
                 else:
                     for s in sorted(sigs):
-                        nv += 1
-                        ctx.violation("walk_ppl_%s_%d.txt" % ("empty" if s == SIG_PPL_EMPTY else "src", nv), replay,
-                                      "payload_prev_length does not equal the previous chunk's payload_length (%s)" % s, sig=s)
+                        nv += ctx.violation("walk_ppl_%s_%d.txt" % ("empty" if s == SIG_PPL_EMPTY else "src", i), replay,
+                                            "payload_prev_length does not equal the previous chunk's payload_length (%s)" % s, sig=s)
+            if with_reader and rd_part:
+                diffs = compare_with_reader(w, "ropen" + rd_part, idsl[i])
+                if diffs:
+                    nv += ctx.violation("walk_reader_%d.txt" % i, replay + "\nreader: %s\n\n%s\n" % (rd_part[:3000], "\n".join(diffs)),
+                                        "independent decoder and library reader disagree: %s" % diffs[0][:200], sig=None)
         if not l.startswith("OK"):
-            nv += 1
             sig = None
-            m = re.match(r"FAIL (\d+) header-rewrite-changes-payload_prev_length tag=1\b", l)
-            if m:
+            # strict checker: the only known class is the SOURCE_DEF header rewrite that zeroes payload_prev_length,
+            # and only if everything else passes (the lenient verdict is appended by the driver)
+            if re.match(r"FAIL \d+ header-rewrite-changes-payload_prev_length tag=1 \(ignoring payload_prev_length: OK", l):
                 sig = SIG_PPL_SRC
-            ctx.violation("checklog_case_%d.txt" % nv, replay, "write-once check of the backend write log failed: %s" % l[:160], sig=sig)
+            nv += ctx.violation("checklog_case_%d.txt" % i, replay, "write-once check of the backend write log failed: %s" % l[:200], sig=sig)
     ctx.extra["walk_distribution"] = dist
     return nv
